@@ -13,3 +13,5 @@ type RefPos = refawk.Pos
 
 // RunRef evaluates the parsed program on the reference tree-walking evaluator.
 func RunRef(p *parser.Program, cfg *RefConfig) RefResult { return refawk.Run(p, cfg) }
+
+// ---- bytecode verifier ----
